@@ -60,31 +60,41 @@ def _show(reqs, end) -> str:
     return "/".join(out) + " " + end
 
 
-def _run_cuts(stream: bytes, cuts) -> str:
-    """deliver the stream cut at the given offsets ([] = in one piece); a delivery is skipped once the
-    transport is disconnecting (a real transport stops reading after loseConnection)"""
+def _run_cuts(stream: bytes, cuts, keep=False) -> str:
+    """deliver the stream cut at the given offsets ([] = in one piece).  keep=False: a delivery is skipped once
+    the transport is disconnecting (a TCP transport stops reading after loseConnection).  keep=True: the
+    transport keeps delivering although it is disconnecting (TLSMemoryBIOProtocol, wrappers, in-memory
+    transports do): nothing may be processed after a 400 all the same."""
     ch, t = _channel()
-    pos = 0
+    pos, exc = 0, ""
     for c in list(cuts) + [len(stream)]:
         k = max(c - pos, 0)
-        if not t.disconnecting:
-            ch.dataReceived(stream[pos:pos + k])
+        if keep or not t.disconnecting:
+            if keep:
+                try:
+                    ch.dataReceived(stream[pos:pos + k])
+                except Exception as e:      # the channel tripping over its own closed transport
+                    exc = "!" + type(e).__name__
+            else:
+                ch.dataReceived(stream[pos:pos + k])
         pos = max(pos, c)
     written = t.value()
     if BAD400 in written:
-        end = "B" if (written.endswith(BAD400) and t.disconnecting) else "B?"
+        end = "B" if (written.endswith(BAD400) and written.count(BAD400) == 1 and t.disconnecting) else "B?"
     elif t.disconnecting:
         end = "C"
     else:
         end = "W"
-    return _show(ch.verif_log, end)
+    return _show(ch.verif_log, end + exc)
 
 
 def impl(case) -> str:
-    """whole-stream result, then one entry per further delivery plan ("=" when equal to the first)"""
+    """whole-stream result, then one entry per further delivery plan, then per keep-feeding plan ("=" when equal
+    to the first)"""
     stream = bytes.fromhex(case["stream"])
     whole = _run_cuts(stream, [])
     rest = [_run_cuts(stream, p) for p in case.get("plans", [])]
+    rest += [_run_cuts(stream, p, keep=True) for p in case.get("keep", [])]
     return "|".join([whole] + [("=" if r == whole else r) for r in rest])
 
 
@@ -226,7 +236,16 @@ def oracle(case, obs_all):
     obs, *others = obs_all.split("|")
     # C18 (every_history_agrees_with_whole_stream_parser): what is delivered is a function of the
     # concatenated bytes; a delivery plan that gives something else moves a request boundary
-    for plan, r in zip(case.get("plans", []), others):
+    nplans = len(case.get("plans", []))
+    for plan, r in zip(case.get("keep", []), others[nplans:]):
+        if r != "=" and obs[-1] in "BC":
+            # the connection was answered with 400 / closed, the transport kept delivering
+            what = "request-delivered" if r.count("/") + (r[0] != " ") > obs.count("/") + (obs[0] != " ") else \
+                ("exception" if "!" in r else "bytes-written")
+            return Failure(case, f"data delivered after the {'400' if obs[-1] == 'B' else 'close'} is processed (transport "
+                                 f"with disconnecting=True that is still fed; cuts {plan[:12]}{'...' if len(plan) > 12 else ''}): "
+                                 f"{r[:240]} ; expected (nothing after it): {obs[:200]}", "after-close:" + what)
+    for plan, r in zip(list(case.get("plans", [])) + list(case.get("keep", [])), others):
         if r != "=":
             na, nb = r.count("/") + (r[0] != " "), obs.count("/") + (obs[0] != " ")
             kind = f"requests:{nb}->{na}" if na != nb else ("ending" if r[-1] != obs[-1] else "request-content")
@@ -415,6 +434,23 @@ def gen(rng, tier):
         if n <= 400:
             plans.append(list(range(1, n)))
         c["plans"] = plans
+        c["keep"] = [plans[0], [rng.randrange(1, n)]] + ([plans[-1]] if n <= 400 else [])
+    # every kind of bad request followed by segments that would complete it / start the next one, delivered
+    # line by line, byte-wise and at every 2-way cut to a transport that keeps feeding after loseConnection
+    tails = [b"\r\n", b"Host: h\r\n\r\n", b"\r\nabc", b"\r\n\r\n" + SENTINEL, b"3\r\nabc\r\n0\r\n\r\n" + SENTINEL]
+    bads = [b"GET  /a HTTP/1.1\r\nHost: h\r\n", b"GET /a HTTP/1.1\r\nBad Header: x\r\nHost: h\r\n",
+            b"GET /a HTTP/1.1\r\nHost: h\r\nNoColon\r\n", b"POST /a HTTP/1.1\r\nContent-Length: 3\r\nContent-Length: 3\r\nHost: h\r\n",
+            b"POST /a HTTP/1.1\r\nContent-Length: 3\r\nTransfer-Encoding: chunked\r\n",
+            b"POST /a HTTP/1.1\r\nTransfer-Encoding: gzip\r\nHost: h\r\n", b"POST /a HTTP/1.1\r\nContent-Length: x\r\n",
+            b"POST /a HTTP/1.1\r\nTransfer-Encoding: chunked\r\n\r\ng\r\n", b"POST /a HTTP/1.1\r\nTransfer-Encoding: chunked\r\n\r\n3\r\nabcXX",
+            b"GET /a HTTP/1.1\r\nA: a\x00b\r\n", b"GET /\x7f HTTP/1.1\r\n"]
+    for bad in bads:
+        for tail in tails:
+            for pre in (b"", b"GET /ok HTTP/1.1\r\nHost: h\r\n\r\n"):
+                s = pre + bad + tail
+                lines = [i + 2 for i in range(len(s) - 1) if s[i:i + 2] == b"\r\n" and i + 2 < len(s)]
+                keep = [lines, list(range(1, len(s)))] + [[i] for i in range(1, len(s))]
+                cases.append({"stream": s.hex(), "cls": "after-400", "plans": [lines], "keep": keep})
     # chunked request followed by a pipelined request: EVERY 2-way cut (in particular inside the last-chunk
     # line and the trailer section) and every pair of cuts inside "last chunk .. end of trailers"
     for last in (b"0\r\n", b"0;x=y\r\n", b"000\r\n", b"0;\r\n"):
@@ -480,6 +516,16 @@ def to_coq(case):
 
 def shrink(case):
     plans = case.get("plans", [])
+    keep = case.get("keep", [])
+    if keep and (len(keep) > 1 or plans):
+        for p in keep:
+            yield {**case, "plans": [], "keep": [p]}
+        return
+    if len(keep) == 1 and not plans:
+        p = keep[0]
+        for i in range(len(p)):
+            yield {**case, "keep": [p[:i] + p[i + 1:]]}
+        return
     if len(plans) > 1:
         for p in plans:
             yield {**case, "plans": [p]}
@@ -507,7 +553,9 @@ SPEC = Spec(
     nontrivial=lambda c, o: len(c["stream"]) > 40,
     histogram=lambda c, o: (lambda w: c["cls"].split(":")[0] + " -> " + str(w.count("/") + (w[0] != " ")) + w[-1])(o.split("|")[0]),
     case_timeout=20.0,
-    rule="each stream delivered in one piece (compared with the model and the RFC reference) and again byte-wise, at "
+    rule="[keep-feeding: the same plans again, and 110 bad-request streams x 5 completing tails at every cut, delivered to a "
+         "transport that still feeds the channel after loseConnection: nothing may be processed after a 400 / close] "
+         "each stream delivered in one piece (compared with the model and the RFC reference) and again byte-wise, at "
          "4 random 2-way cuts and one random multi-way cut (all must agree with the one-piece result; sound by C18's "
          "every_history_agrees_with_whole_stream_parser); chunked POST + pipelined GET with 4 last-chunk spellings x 0-2 "
          "trailer lines at EVERY 2-way cut and every pair of cuts inside the last-chunk line / trailer section.  Streams: pipelines of 1-3 well-formed requests (token methods, 6 target forms, OWS and "
